@@ -230,7 +230,7 @@ fn check_model(m: &Model, out: &mut Vec<Viol>) -> u64 {
             }
         }
         let expected: Vec<(usize, Vec<u8>)> = m.modules.iter().enumerate().filter_map(|(i, s)| s.clone().map(|d| (i, d))).collect();
-        let got: Vec<Result<(usize, Vec<u8>), String>> = bundle.iter_modules().take(70).map(|r| r.map(|m| (m.id(), m.data().to_vec())).map_err(|e| e.to_string())).collect();
+        let got: Vec<Result<(usize, Vec<u8>), String>> = bundle.iter_modules().take(expected.len() + 8).map(|r| r.map(|m| (m.id(), m.data().to_vec())).map_err(|e| e.to_string())).collect();
         if got.iter().any(|g| g.is_err()) || got.iter().map(|g| g.clone().unwrap_or_default()).collect::<Vec<_>>() != expected {
             v.push(("iterator".into(), format!("iter_modules = {got:?}, expected present modules in id order {expected:?}")));
         }
@@ -292,6 +292,31 @@ pub fn run(run: &mut Run) -> Finish {
         if l.wants_sample(idx) {
             l.sample(idx, json!({"model": serde_json::to_value(m).unwrap(), "bytes": write_bundle(m)}));
         }
+    });
+
+    // long tables (anything done per batch of slots, or per run of empty slots, is crossed)
+    let long_ns = [63usize, 64, 65, 257, 1000, 20000];
+    run.par_slice("well-formed bundles with long tables: 63/64/65/257/1000/20000 slots, 3 fill patterns (every third present, all present, one present at the end of a run of empty slots), modules stored in reverse order", 7, long_ns.len() as u64 * 3, |idx, l| {
+        let k = idx & ((1 << 40) - 1);
+        let (n, pat) = (long_ns[(k / 3) as usize], k % 3);
+        let modules: Vec<Option<Vec<u8>>> = (0..n)
+            .map(|i| match pat {
+                0 if i % 3 == 1 => Some(vec![(i % 251) as u8, 0, 7]),
+                1 => Some(vec![(i % 251) as u8]),
+                2 if i + 1 == n => Some(vec![b'z']),
+                _ => None,
+            })
+            .collect();
+        let mut order: Vec<usize> = (0..n).filter(|&i| modules[i].is_some()).collect();
+        order.reverse();
+        let m = Model { modules, order, startup: b"startup!\0".to_vec() };
+        let mut v = vec![];
+        let class = check_model(&m, &mut v);
+        for mut x in v {
+            x.sig = format!("{}/long-table", x.sig);
+            l.violation(idx, x);
+        }
+        l.case(true, class ^ (n as u64) << 8);
     });
 
     // corruptions of every model (thorough) / of every model with <= 2 slots plus one
@@ -427,6 +452,11 @@ pub fn recheck(case: &Value) -> Vec<Viol> {
         Some("model") => {
             if let Ok(m) = serde_json::from_value::<Model>(case["model"].clone()) {
                 check_model(&m, &mut out);
+                if m.modules.len() > 40 {
+                    for x in out.iter_mut() {
+                        x.sig = format!("{}/long-table", x.sig);
+                    }
+                }
             }
         }
         _ => {}
